@@ -86,6 +86,8 @@ type RunOpts struct {
 	AtBegin func(t *Txn)
 	// Create: open stores with NewBtree (create if missing) instead of OpenBtree.
 	Create bool
+	// BeforeCommitModels is called like BeforeCommit with the models the stores will equal iff the commit succeeds.
+	BeforeCommitModels func(t *Txn, post []*Model)
 }
 
 // RunTxn executes prog against the real stores and against copies of models. It returns the
@@ -153,6 +155,9 @@ func (e *Env) RunTxn(prog TxnProg, stores []StoreOpts, models []*Model, ro RunOp
 	}
 	if ro.BeforeCommit != nil {
 		ro.BeforeCommit(t)
+	}
+	if ro.BeforeCommitModels != nil {
+		ro.BeforeCommitModels(t, work)
 	}
 	if prog.End == "rollback" {
 		if err := t.Tx.Rollback(Ctx); err != nil {
